@@ -546,6 +546,13 @@ func countTrace(r *hxlib.Run, j *job, tr *trace) {
 			if it.Self {
 				r.Count("item-self-finishing")
 			}
+			if it.Kind == "sw" && it.Backoff > 0 {
+				how := "answers-the-cancellation"
+				if it.Self {
+					how = "fails-before-the-stop"
+				}
+				r.Count(fmt.Sprintf("service-worker-backoff:%ds:%s:%s", it.Backoff/1000, it.Ret, how))
+			}
 		}
 		for _, k := range m.Late {
 			r.Count("late-spec:" + k)
